@@ -29,6 +29,9 @@ func (r *renderer) qual(p *Pkg) string {
 		return ""
 	}
 	r.imports[p] = true
+	if p == r.f.DotImport {
+		return ""
+	}
 	if a := r.f.Aliases[p]; a != "" {
 		return a + "."
 	}
@@ -879,6 +882,10 @@ func renderFile(f *File) {
 			head = append(head, fmt.Sprintf("\t_ %q", bp.Path()))
 		}
 		for _, ip := range imps {
+			if ip == f.DotImport {
+				head = append(head, fmt.Sprintf("\t. %q", ip.Path()))
+				continue
+			}
 			if a := f.Aliases[ip]; a != "" {
 				head = append(head, fmt.Sprintf("\t%s %q", a, ip.Path()))
 			} else {
